@@ -21,7 +21,7 @@ def run(tier, seed):
                 'for the exact quotients; rounding to 5 decimals moves each entry by at most 5e-6',
                 'not decided: that the reported eigenvalues are the finite generalised eigenvalues when zero time constants are '
                 'present (EIG._reorder is outside the subset; bounded stand-in + known finding F4)')
-    items = [(E.store_stats('C08'), None, E.replay_store_stats), (E.find_zero_states('C08'),), (E.reduce_('C08'),), (E.calc_pfactor('C08'),),
+    items = [(E.store_stats('C08'), None, E.replay_store_stats), (E.find_zero_states('C08'),), (E.reduce_('C08'),), (E.calc_pfactor('C08'), None, E.replay_calc_pfactor),
              (E.pre_check('C08'), E.WIT_F16, E.replay_pre_check), (E.eig_run('C08'),)]
     run_contracts(pack, items)
     # L2 instance for n = 3 (the general statement is an induction over a sum binder; see DESIGN 2.6)
